@@ -27,6 +27,10 @@ pub enum Op {
     ObsChoke(u16),
     ObsUnchoke(u16),
     ObsDisconnect(u16),
+    /// a supplier chokes the client (dropping the requests it has queued) / unchokes it again / announces a piece again
+    SupChoke(u16),
+    SupUnchoke(u16),
+    SupHave(u16, u16),
 }
 
 #[derive(Clone, Debug, Serialize, Deserialize)]
@@ -48,8 +52,11 @@ fn strategy() -> BoxedStrategy<Case> {
         2 => any::<u16>().prop_map(Op::ObsChoke),
         2 => any::<u16>().prop_map(Op::ObsUnchoke),
         1 => any::<u16>().prop_map(Op::ObsDisconnect),
+        2 => any::<u16>().prop_map(Op::SupChoke),
+        3 => any::<u16>().prop_map(Op::SupUnchoke),
+        1 => (any::<u16>(), any::<u16>()).prop_map(|(a, b)| Op::SupHave(a, b)),
     ];
-    (2usize..=20, prop_oneof![Just(1usize), 1usize..=40, Just(20000usize)], vec(op, 0..60), any::<u64>())
+    (2usize..=20, prop_oneof![2 => Just(1usize), 2 => 1usize..=40, 3 => Just(20000usize)], vec(op, 0..60), any::<u64>())
         .prop_map(|(pieces, piece_len, ops, seed)| Case { pieces: if piece_len > 1000 { pieces.min(5) } else { pieces }, piece_len, ops, seed })
         .boxed()
 }
@@ -181,6 +188,30 @@ pub fn check(c: &Case) -> Outcome {
                             let ob = &mut observers[live_obs[idx(*i, live_obs.len())]];
                             net.unchoke(w, ob.p);
                             ob.chokes = false;
+                        }
+                    }
+                    Op::SupChoke(i) => {
+                        let live: Vec<usize> = suppliers.iter().copied().filter(|p| net.alive(w, *p)).collect();
+                        if !live.is_empty() {
+                            let p = live[idx(*i, live.len())];
+                            if !net.peers[p].view.outstanding.is_empty() {
+                                classes.push("supplier-chokes-mid-piece");
+                            }
+                            net.choke(w, p);
+                        }
+                    }
+                    Op::SupUnchoke(i) => {
+                        let live: Vec<usize> = suppliers.iter().copied().filter(|p| net.alive(w, *p) && net.peers[*p].chokes_client).collect();
+                        if !live.is_empty() {
+                            let p = live[idx(*i, live.len())];
+                            net.unchoke(w, p);
+                        }
+                    }
+                    Op::SupHave(i, k) => {
+                        let live: Vec<usize> = suppliers.iter().copied().filter(|p| net.alive(w, *p)).collect();
+                        if !live.is_empty() {
+                            let p = live[idx(*i, live.len())];
+                            net.have(w, p, idx(*k, n));
                         }
                     }
                     Op::ObsDisconnect(i) => {
@@ -325,7 +356,7 @@ pub fn check(c: &Case) -> Outcome {
 pub fn def() -> PropDef {
     PropDef {
         id: "C11",
-        rule: "one or two supplier peers deliver single-block pieces (2-20 pieces of 1-40 bytes, or 20000-byte two-block pieces) at generated points of a global schedule of up to 60 ops, some deliveries corrupt; up to three observer connections (incoming or outgoing; outgoing ones may send their own handshake much later than the client's) handshake at generated points - also in the same barrier as a delivery - and choke / unchoke the client at generated points; at the end every observer unchokes. The harness knows A(t), the completion order the manager has handled (every command passes through the stepper), and D(t), the pieces verified on disk. Oracle: an observer's bitfield satisfies A(at its Init) <= bits <= D, spare bits zero; every Have(i) has i in D at the barrier it is read; for each observer the Haves for pieces completed after its Init arrive exactly in completion order, and whenever the observer is not choking the client none is missing. Non-trivial = an observer handshake after at least one and before the last completion, and a completion while that observer chokes the client; distinct by hash of the case.",
+        rule: "one or two supplier peers deliver single-block pieces (2-20 pieces of 1-40 bytes, or 20000-byte two-block pieces) at generated points of a global schedule of up to 60 ops, some deliveries corrupt, suppliers may choke the client in the middle of a piece and unchoke it later; up to three observer connections (incoming or outgoing; outgoing ones may send their own handshake much later than the client's) handshake at generated points - also in the same barrier as a delivery - and choke / unchoke the client at generated points; at the end every observer unchokes. The harness knows A(t), the completion order the manager has handled (every command passes through the stepper), and D(t), the pieces verified on disk. Oracle: an observer's bitfield satisfies A(at its Init) <= bits <= D, spare bits zero; every Have(i) has i in D at the barrier it is read; for each observer the Haves for pieces completed after its Init arrive exactly in completion order, and whenever the observer is not choking the client none is missing. Non-trivial = an observer handshake after at least one and before the last completion, and a completion while that observer chokes the client; distinct by hash of the case.",
         assumptions: &[
             "fewer than 32 completions happen between two barriers of any connection task (the broadcast channel holds 32 commands; lagging receivers are a capacity question the property does not speak about)",
             "D is sampled at barriers; a bitfield is compared with D at the end of the barrier in which it was read (D is monotone)",
@@ -335,7 +366,7 @@ pub fn def() -> PropDef {
             cases: |t| t.pick(12_000, 150_000),
             run: |ctx| run_proptest(ctx, "announcements", strategy(), check),
             replay: |v| replay_case::<Case>(v, check),
-            min_class: &[("observer-handshake-between-completions", 0.3), ("completion-while-observer-chokes", 0.3), ("observer-bitfield-checked", 0.4288), ("handshake-and-delivery-in-same-barrier", 0.2), ("corrupt-completion", 0.2), ("outgoing-observer-handshakes-late", 0.1)],
+            min_class: &[("observer-handshake-between-completions", 0.3), ("completion-while-observer-chokes", 0.3), ("observer-bitfield-checked", 0.4288), ("handshake-and-delivery-in-same-barrier", 0.2), ("corrupt-completion", 0.2), ("outgoing-observer-handshakes-late", 0.1), ("supplier-chokes-mid-piece", 0.1)],
         }],
     }
 }
